@@ -19,7 +19,7 @@ META = dict(
     module="scenarios.c11_loans", level="model_checking",
     bounds=dict(
         quick="interest: one MarginLoans loan with symbolic principal, minimum interest, initial balance and elapsed "
-              "time (whole seconds up to 10 years; one job with microsecond resolution), interest 7 % per {1 day, 365 days, no period}, interest symbol equal "
+              "time, interest symbol precision 2 or 0 (whole seconds up to 10 years; one job with microsecond resolution), interest 7 % per {1 day, 365 days, no period}, interest symbol equal "
               "to / different from the borrowed symbol (price from {100, 31234.56}); optionally a bar with the other price at the instant of "
               "inspection; query, repay, repay again, repay unknown id; auto-repay: 2 open loans in the symbol an auto-repay limit/market order acquires, symbolic "
               "principals and balances, one bar; the same with a limit order that trades in part under "
@@ -44,16 +44,18 @@ def interest(ctx, same_symbol=True, period_days=365, sub_second=False):
     patch_minmax(ctx)
     ctx.patch(margin, "Decimal", DecimalFactory)
     d = bs.backtesting_dispatcher()
-    usd0 = ctx.dec("usd0", 2, lo=0, hi=10 ** 12)
+    # the interest symbol's precision (0 = whole units, e.g. JPY): a solver choice
+    uprec = [2, 0][ctx.choice("interest_symbol_precision", 2)]
+    usd0 = ctx.dec("usd0", uprec, lo=0, hi=10 ** 12)
     btc0 = ctx.dec("btc0", 8, lo=0, hi=10 ** 12)
     pct = Decimal("7")
     period = datetime.timedelta(days=period_days) if period_days else datetime.timedelta(0)
-    mn = ctx.dec("min_interest", 2, lo=0, hi=10 ** 6)
+    mn = ctx.dec("min_interest", uprec, lo=0, hi=10 ** 6)
     cond = margin.MarginLoanConditions(interest_symbol="USD", interest_percentage=pct, interest_period=period,
                                        min_interest=mn, margin_requirement=Decimal("0"))
     e = bex.Exchange(d, {"USD": usd0, "BTC": btc0}, lending_strategy=margin.MarginLoans("USD", default_conditions=cond),
                      default_pair_info=PairInfo(8, 2), liquidity_strategy_factory=liquidity.InfiniteLiquidity)
-    e.set_symbol_precision("USD", 2)
+    e.set_symbol_precision("USD", uprec)
     e.set_symbol_precision("BTC", 8)
     d._set_now(T0)
     price = Decimal(ctx.pick("close_choice", ["100", "31234.56"]))
@@ -102,13 +104,24 @@ def interest(ctx, same_symbol=True, period_days=365, sub_second=False):
         raw = raw * el / Decimal(period_days * 86400)
     if not same_symbol:
         raw = raw * price
-    exp = trunc(smax(raw, mn), 2)
+    exp = trunc(smax(raw, mn), uprec)
     if ctx.mode == "sym":
         ctx.prove(out == exp, "C11 outstanding interest == truncated max(pct x principal x elapsed / period, minimum)")
     else:
-        ctx.prove(abs(out - exp) <= Decimal("0.01"), "C11 outstanding interest == truncated max(pct x principal x "
-                                                     "elapsed / period, minimum)")
-    ctx.prove([out >= 0, out >= trunc(mn, 2)], "C11 interest is never negative and never below the minimum")
+        # concrete replay: the code multiplies by the binary64 ratio elapsed/period; the reference is evaluated with that
+        # same double and with the exact rational, and either result is accepted (they differ only when the product sits
+        # on a truncation boundary), instead of a flat one-cent tolerance that would hide one-cent defects
+        cands = {exp}
+        if period_days:
+            el_s = (t1 - T0).total_seconds()
+            r_float = Decimal(el_s / datetime.timedelta(days=period_days).total_seconds())
+            raw_f = a * pct / Decimal(100) * r_float
+            if not same_symbol:
+                raw_f = raw_f * price
+            cands.add(trunc(smax(raw_f, mn), uprec))
+        ctx.prove(out in cands, "C11 outstanding interest == truncated max(pct x principal x elapsed / period, minimum)",
+                  info=(out, sorted(cands)))
+    ctx.prove([out >= 0, out >= trunc(mn, uprec)], "C11 interest is never negative and never below the minimum")
     if bool(raw < mn):
         ctx.cover("the minimum interest applied")
     else:
